@@ -313,6 +313,10 @@ def _vec_binop(op, a, b):
 
 
 def compare(ex, op, a, b, st, ctx):
+    if op in ("Is", "IsNot") and any(isinstance(x, Opaque) and x.tag.split("!")[0] == "module_state" for x in (a, b)):
+        # identity with something read from module-level state: whatever an earlier call stored -- not known
+        r = z3.Bool(fresh_name("is_module_state"))
+        return r if op == "Is" else z3.Not(r)
     if op in ("Is", "IsNot"):
         if a is None or b is None:
             same = (a is None and b is None)
@@ -579,7 +583,7 @@ def _vec_index(items, idx):
 
 def subscript(ex, v, idx, st, ctx, node=None):
     if isinstance(v, Opaque):
-        return Opaque("sub")
+        return Opaque("module_state" if v.tag.split("!")[0] == "module_state" else "sub")
     if isinstance(v, TabVal):
         if isinstance(idx, tuple) and len(idx) == 2:
             r, c = idx
